@@ -94,4 +94,5 @@ def run(ctx):
         for law in laws:
             ctx.violation('C06|%s|%s|%s' % (o['fam'], law, O.theta_bucket(o['fam'], float(o['theta']))),
                           '%s CDF at theta=%s violates %s' % (o['fam'], o['theta'], law), {'fam': o['fam'], 'theta': o['theta'], 'law': law, 'rerun': ['harness.props.C06._observe', list(jobs[i])]})
+    ctx.traces += len(obs)          # observation tables / samples of the real code judged by TLC
     ctx.exhaustive = False
